@@ -624,6 +624,7 @@ theorem typeOnly_exact (K : Kinds) (p : Pat) (hp : typeOnly p = true) (ctx : TEn
       rw [if_pos ⟨k, hk1, this⟩]; rfl
   | node _ _ => simp [typeOnly] at hp
   | typesF _ _ _ => simp [typeOnly] at hp
+  | ctxInst => simp [typeOnly] at hp
   | m _ _ _ => simp [typeOnly] at hp
   | mnot _ _ _ => simp [typeOnly] at hp
   | mor _ => simp [typeOnly] at hp
@@ -649,6 +650,12 @@ theorem sound_node (K : Kinds) : ∀ (p : Pat) (ctx : TEnv) (t : Tree) (e : TEnv
     simp only [matchNode] at hm
     split at hm
     · next h => exact hk.2.2.1 k (by simpa using h)
+    · cases hm
+  | .ctxInst, ctx, t, e, la, hk, hl, hm => by
+    simp only [leafAsts, Option.some.injEq] at hl; subst hl
+    simp only [matchNode] at hm
+    split at hm
+    · next h => exact hk.2.2.1 _ (by simpa using h)
     · cases hm
   | .types ks, ctx, t, e, la, hk, hl, hm => by
     simp only [leafAsts, Option.some.injEq] at hl; subst hl
